@@ -58,39 +58,50 @@ def jsonOfFVal : FVal → Json
   | .ninf => Json.mkObj [("t", "-inf")]
   | .nan => Json.mkObj [("t", "nan")]
 
-partial def pyValOfJson : Json → Except String PyVal
-  | .null => pure .null
-  | .bool b => pure (.bool b)
-  | j => do
-    if let .ok s := j.getObjValAs? String "s" then return .str s.toList
-    if let .ok i := j.getObjValAs? String "i" then
-      match i.toInt? with
-      | some n => return .int n
-      | none => throw "bad int"
-    if let .ok f := j.getObjVal? "f" then
-      let r ← f.getObjValAs? String "r"
-      let v ← ratOfJson f
-      return .float r.toList v
-    if let .ok (xs : Array Json) := j.getObjValAs? (Array Json) "l" then
-      let ys ← xs.toList.mapM pyValOfJson
-      return .list ys
-    if let .ok z := j.getObjVal? "z" then
-      let c ← z.getObjValAs? String "c"
-      let f ← z.getObjValAs? String "f"
-      let t : Option Str := match z.getObjValAs? String "t" with
-        | .ok t => some t.toList
-        | .error _ => none
-      return .zone c.toList t f.toList
-    throw "unsupported value kind"
+/-- decode a value; `fuel` bounds the nesting depth of lists (structural recursion, no `partial`) -/
+def pyValOfJsonFuel : Nat → Json → Except String PyVal
+  | 0, _ => throw "value nested too deeply"
+  | fuel + 1, j =>
+    match j with
+    | .null => pure .null
+    | .bool b => pure (.bool b)
+    | j => do
+      if let .ok s := j.getObjValAs? String "s" then return .str s.toList
+      if let .ok i := j.getObjValAs? String "i" then
+        match i.toInt? with
+        | some n => return .int n
+        | none => throw "bad int"
+      if let .ok f := j.getObjVal? "f" then
+        let r ← f.getObjValAs? String "r"
+        let v ← ratOfJson f
+        return .float r.toList v
+      if let .ok (xs : Array Json) := j.getObjValAs? (Array Json) "l" then
+        let ys ← xs.toList.mapM (pyValOfJsonFuel fuel)
+        return .list ys
+      if let .ok z := j.getObjVal? "z" then
+        let c ← z.getObjValAs? String "c"
+        let f ← z.getObjValAs? String "f"
+        let t : Option Str := match z.getObjValAs? String "t" with
+          | .ok t => some t.toList
+          | .error _ => none
+        return .zone c.toList t f.toList
+      throw "unsupported value kind"
 
-partial def jsonOfPyVal : PyVal → Json
+def pyValOfJson (j : Json) : Except String PyVal := pyValOfJsonFuel 64 j
+
+mutual
+def jsonOfPyVal : PyVal → Json
   | .null => .null
   | .bool b => .bool b
   | .int i => Json.mkObj [("i", toString i)]
   | .float r v => Json.mkObj [("f", (jsonOfFVal v).setObjVal! "r" (String.ofList r))]
   | .str s => Json.mkObj [("s", String.ofList s)]
-  | .list xs => Json.mkObj [("l", Json.arr (xs.map jsonOfPyVal).toArray)]
+  | .list xs => Json.mkObj [("l", Json.arr (jsonOfPyVals xs).toArray)]
   | .zone c t f => Json.mkObj [("z", Json.mkObj [("c", String.ofList c), ("t", match t with | some t => Json.str (String.ofList t) | none => .null), ("f", String.ofList f)])]
+def jsonOfPyVals : List PyVal → List Json
+  | [] => []
+  | x :: xs => jsonOfPyVal x :: jsonOfPyVals xs
+end
 
 def constraintOfJson (j : Json) : Except String Constraint := do
   let k ← j.getObjValAs? String "k"
@@ -169,15 +180,20 @@ def Tables.env (t : Tables) (assumeReOk : Bool := false) : Env where
 
 def hasSentinel (s : Str) : Bool := s.take 2 == ['\x00', '?']
 
-partial def valueProblem : PyVal → (inList : Bool) → Option String
+mutual
+def valueProblem : PyVal → (inList : Bool) → Option String
   | .float r v, inList =>
     if hasSentinel r then some "float repr not supplied"
     else if inList && v.isNan then some "nan inside a list (identity shortcut of ==)" else none
   | .str s, inList => if inList && s.any (fun c => c.toNat ≥ 127) then some "repr of non-ASCII str" else none
-  | .list xs, _ => xs.findSome? (valueProblem · true)
+  | .list xs, _ => valuesProblem xs
   | .zone c t f, _ =>
     if (c ++ (t.getD []) ++ f).any (fun c => c.toNat ≥ 127) then some "repr of non-ASCII str (zone)" else none
   | _, _ => none
+def valuesProblem : List PyVal → Option String
+  | [] => none
+  | x :: xs => (valueProblem x true).orElse fun _ => valuesProblem xs
+end
 
 /-- does the case leave the modelled domain? -/
 def problem (t : Tables) (cs : List Constraint) (v : PyVal) : Option String :=
